@@ -239,6 +239,7 @@ def generate(bdir):
     if not sa or not re.search(r"free_svalue \(dest, [^)]*\); assign_svalue_no_free \(dest, v\);", " ".join(sa.group(0).split())):
         raise TieBroken("fn:assign_svalue", "assign_svalue is no longer `free_svalue(dest); assign_svalue_no_free(dest, v);` in this order")
     _programs(out, info)
+    _array_stats(out, info)
     return "\n".join(out) + "\n", info
 
 
@@ -323,3 +324,30 @@ def _programs(out, info):
         held.append(fn)
     info["progHolders"] = {"c": ", ".join(held)}
     out.append("/-- holders of a program reference checked textually: %s -/\ndef progHolderSites : Nat := %d" % (", ".join(held), len(held)))
+
+
+def _array_stats(out, info):
+    """num_arrays / total_array_size: the statements of allocate_array, allocate_empty_array, dealloc_array,
+    free_empty_array; the size formula is translated into `arrBytesOf`"""
+    out.append("\n/-! ### array statistics: the size formula of allocate_array, regenerated; the four sites checked textually -/")
+    exprs = []
+    for fn, sign, var in (("allocate_array", "+", "n"), ("allocate_empty_array", "+", "n"),
+                          ("dealloc_array", "-", "p->size"), ("free_empty_array", "-", "p->size")):
+        body = _fn("lib/lpc/array.c", fn, "fn:" + fn)
+        m = re.search(r"num_arrays(\+\+|--) ?; total_array_size (\+|-)= ([^;]*);", body)
+        if not m or m.group(1) != sign * 2 or m.group(2) != sign:
+            raise TieBroken("fn:" + fn, "%s no longer does `num_arrays%s; total_array_size %s= <size>;`" % (fn, sign * 2, sign))
+        if len(re.findall(r"num_arrays(?:\+\+|--)", body)) != 1 or len(re.findall(r"total_array_size [-+]=", body)) != 1:
+            raise TieBroken("fn:" + fn, "%s updates the array statistics more than once" % fn)
+        exprs.append(" ".join(m.group(3).replace(var, "n").split()))
+    if len(set(exprs)) != 1:
+        raise TieBroken("fn:allocate_array", "the four sites no longer use the same size formula: %s" % exprs)
+    e = exprs[0]
+    lean = e.replace("sizeof (array_t)", "(sizeofArrayT : Int)").replace("sizeof (svalue_t)", "(sizeofSvalue : Int)")
+    lean = re.sub(r"\bn\b", "(n : Int)", lean)
+    rest = lean.replace("(sizeofArrayT : Int)", "").replace("(sizeofSvalue : Int)", "").replace("(n : Int)", "")
+    if re.sub(r"[\s\d+*()\-]", "", rest):
+        raise TieBroken("fn:allocate_array", "size formula outside the grammar: " + e)
+    info["arrBytesOf"] = {"c": e, "lean": lean}
+    out.append("/-- bytes accounted for an array of n elements.  C (allocate_array, allocate_empty_array, dealloc_array, "
+               "free_empty_array): `%s` -/\ndef arrBytesOf (n : Nat) : Int := %s" % (e, lean))
